@@ -17,6 +17,9 @@ def main():
         prop = m.get("property", d[:3])
         caught = m.get("caught_by_checks", [])
         own = prop in caught
+        st = m.get("status_on_current_tree")
+        if st:
+            own = "inert" if st.startswith("inert") else own
         rows.append((d, prop, own, caught, " ".join(str(m.get("summary", "")).split())[:230],
                      " ".join(str(m.get("needs_to_manifest", "")).split())[:200]))
     out = ["# Seeded changes (written by independent sub-agents, confirmed by tools/verify_seeded.py)", "",
@@ -25,17 +28,23 @@ def main():
            "| change | aimed at | own check | all checks that fire | what the change does | what it needs to manifest |",
            "|---|---|---|---|---|---|"]
     for (d, prop, own, caught, summ, needs) in rows:
-        out.append("| %s | %s | %s | %s | %s | %s |" % (d, prop, "yes" if own else "**no**", " ".join(caught) or "-",
+        out.append("| %s | %s | %s | %s | %s | %s |" % (d, prop, "inert after the F11 fix (was: yes)" if own == "inert" else
+                                                     ("yes" if own else "**no**"), " ".join(caught) or "-",
                                                      summ.replace("|", "/"), needs.replace("|", "/")))
     n = len(rows)
-    k = sum(1 for r in rows if r[2])
-    a = sum(1 for r in rows if r[3])
-    out += ["", "%d changes; %d caught by the check of the property they aim at; %d caught by at least one check." % (n, k, a)]
+    inert = sum(1 for r in rows if r[2] == "inert")
+    k = sum(1 for r in rows if r[2] is True)
+    a = sum(1 for r in rows if r[3] and r[2] != "inert")
+    out += ["", "%d changes; %d of them no longer manifest on the current tree (they needed a state that a later fix removed); "
+            "of the other %d, %d are caught by the check of the property they aim at and %d by at least one check."
+            % (n, inert, n - inert, k, a)]
     open(os.path.join(SEEDED, "INDEX.md"), "w").write("\n".join(out) + "\n")
     print("\n".join(out[-1:]))
     for r in rows:
-        if not r[2]:
+        if r[2] is False:
             print("not caught by own check:", r[0], "caught by", r[3])
+        elif r[2] == "inert":
+            print("inert on the current tree:", r[0])
 
 
 if __name__ == "__main__":
